@@ -73,8 +73,10 @@ type Downstream struct {
 	chunkAckIDSequence    *sequenceNumberGenerator
 	finalAckFlushed       chan struct{}
 
-	state           *streamState
-	connStatus      *connStatus
+	state      *streamState
+	connStatus *connStatus
+	// connGeneration is connStatus.Reconnects() as of the wire connection this stream is bound to.
+	connGeneration  uint64
 	eventDispatcher *eventDispatcher
 }
 
@@ -241,7 +243,8 @@ func (d *Downstream) run() error {
 
 	eg.Go(func() error {
 		d.connStatus.cond.L.Lock()
-		for !d.connStatus.IsWithoutLock(connStatusReconnecting) {
+		// see Upstream.run: wait for "an outage has begun since this stream was bound", not for the status value
+		for d.connStatus.ReconnectsWithoutLock() == d.connGeneration {
 			select {
 			case <-ctx.Done():
 				d.connStatus.cond.L.Unlock()
